@@ -11,4 +11,4 @@ for p in "$@"; do
   echo "== $p"; VERIF_REPO="$wt" timeout 1200 ./check "$p" --skip-proof --evidence-dir /tmp/verif-mut-evidence-$$ 2>&1 | grep -E "VIOLATION|KNOWN|violations" | head -3
 done
 git -C /repo worktree remove --force "$wt"; git -C /repo worktree prune
-rm -rf /tmp/verif-mut-evidence-$$ .cache/harness-$tag .cache/target-*-$tag .cache/explore-crate-$tag .cache/explore-target-$tag .cache/explore/$tag* .cache/*-$tag.lock
+rm -rf /tmp/verif-mut-evidence-$$ .cache/harness-$tag .cache/target-*-$tag .cache/explore-crate-$tag .cache/explore-target-$tag .cache/explore-target-*feat-$tag .cache/explore/$tag* .cache/*-$tag.lock
